@@ -4,6 +4,7 @@ CONSTANTS
   MaxLen = 4
   Levels = {"error"}
   Modes = {"fmt"}
+  L1Variant = "fixed"
 INVARIANT DecoderSane
 INVARIANT EmitCases
 CHECK_DEADLOCK FALSE
